@@ -143,6 +143,58 @@ func (t *coTarget) deliver(e ev) string {
 }
 func (t *coTarget) len() int { return t.c.VerifNonceLen() }
 
+// ---- real lifecycle: NewCoordinator → Start → StartReplication → TCP accept loop
+type lcTarget struct {
+	c    *cluster.Coordinator
+	addr string
+	kind string
+}
+
+func (t *lcTarget) deliver(e ev) string {
+	conn, err := net.DialTimeout("tcp", t.addr, 2*time.Second)
+	if err != nil {
+		return "error:dial"
+	}
+	defer conn.Close()
+	payload := []byte(`{"type":1}`)
+	var m *protocol.Message
+	switch t.kind {
+	case "lc-forward":
+		mac := security.ComputeForwardHMAC(secret, e.nonce, e.sender, clusterName, payload, e.ts)
+		if !e.macOK {
+			mac = badMAC(mac)
+		}
+		m = &protocol.Message{Type: protocol.MsgForwardApply, Payload: &protocol.ForwardApplyRequest{CommandJSON: payload, NodeID: e.sender, Nonce: e.nonce, Timestamp: e.ts, HMAC: mac}}
+	default:
+		mac := security.ComputeReplicateSyncHMAC(secret, e.nonce, e.sender, clusterName, 0, e.ts)
+		if !e.macOK {
+			mac = badMAC(mac)
+		}
+		m = &protocol.Message{Type: protocol.MsgReplicateSync, Payload: &protocol.ReplicateSync{ReaderID: e.sender, LastKnownSequence: 0, Nonce: e.nonce, ClusterName: clusterName, Timestamp: e.ts, HMAC: mac}}
+	}
+	if err := protocol.SendMessage(conn, m, 2*time.Second); err != nil {
+		return "error:send"
+	}
+	msg, err := protocol.ReceiveMessage(conn, 5*time.Second)
+	if err != nil {
+		return "error:recv"
+	}
+	switch p := msg.Payload.(type) {
+	case *protocol.ForwardApplyAck:
+		if p.Error == "authentication failed" || p.Error == "nonce replay" {
+			return "rejected"
+		}
+		return "accepted" // got past authentication + replay protection (raft unavailable / unknown node / not leader …)
+	case *protocol.ReplicateSyncAck:
+		if p.Error == "authentication failed" {
+			return "rejected"
+		}
+		return "accepted"
+	}
+	return fmt.Sprintf("odd-payload:%T", msg.Payload)
+}
+func (t *lcTarget) len() int { return t.c.VerifNonceLenOrMinus1() }
+
 type site struct {
 	name, kind   string
 	tolNs, ttlNs int64
@@ -178,6 +230,35 @@ func main() {
 	base := int64(1_700_000_000) * sec
 	r := vh.NewRand(c.Seed)
 
+	// lifecycle coordinators are expensive (listeners, goroutines): one per configuration, unique
+	// nonces per case; the model's cache is NOT reset between their cases ("cont" header).
+	lcs := map[string]*lcTarget{}
+	lcCount := map[string]int{}
+	defer func() {
+		for _, t := range lcs {
+			t.c.Stop()
+		}
+	}()
+	lcGet := func(kind string, raft bool) (*lcTarget, bool) {
+		key := fmt.Sprintf("%s/%v", kind, raft)
+		if t, ok := lcs[key]; ok {
+			return t, false
+		}
+		dir := ""
+		if raft {
+			dir = c.OutDir + "/raft-" + kind
+		}
+		verifclock.Real()
+		co, addr, err := cluster.VerifC26Lifecycle(secret, clusterName, dir)
+		if err != nil {
+			panic("lifecycle coordinator: " + err.Error())
+		}
+		t := &lcTarget{c: co, addr: addr, kind: kind}
+		lcs[key] = t
+		return t, true
+	}
+	_ = lcCount
+
 	runCase := func(st site, evs []ev) {
 		verifclock.Set(base)
 		var tg target
@@ -185,6 +266,8 @@ func main() {
 		switch st.kind {
 		case "cacheinv":
 			tg = newCI(time.Duration(st.tolNs), time.Duration(st.ttlNs))
+		case "lc-sync", "lc-forward":
+			panic("lifecycle cases use runLC")
 		default:
 			// the handlers use the package constant tolerance themselves; the cache retention is the
 			// value found at the real construction site
@@ -254,6 +337,63 @@ func main() {
 				}
 			}
 		}
+	}
+	// lifecycle cases: the cache Start() really built, with and without Raft. The virtual clock only
+	// moves forward across these cases (one long-lived coordinator), nonces are unique per case.
+	{
+		var coord site
+		for _, st := range sites {
+			if st.kind == "sync" {
+				coord = st
+			}
+		}
+		tolSec := int64(time.Duration(coord.tolNs).Seconds())
+		lcNow := base + 10000*sec
+		caseNo := 0
+		for _, raft := range []bool{false, true} {
+			for _, kind := range []string{"lc-sync", "lc-forward"} {
+				tg, fresh := lcGet(kind, raft)
+				if tg.len() < 0 {
+					// Start() left the replay cache nil in this configuration: the model has a cache, so
+					// this is a correspondence break; the monitor below decides whether replays get through.
+					c.Tag("lc:nil-cache")
+				}
+				hdr := fmt.Sprintf("new %s %d %d %d", kind, coord.ttlNs, tolSec, lcNow)
+				_ = fresh
+				c.Op(hdr, "ok")
+				for _, off := range []int64{0, tolSec, -tolSec, tolSec + 1} {
+					for _, gap := range []int64{1, coord.ttlNs - 1, 2*tolSec*sec + sec - 1} {
+						caseNo++
+						lcNow += 3 * coord.ttlNs // later than every earlier nonce's expiry
+						t1 := lcNow
+						ts := t1/sec + off
+						nonce := fmt.Sprintf("lc%d", caseNo)
+						var canon strings.Builder
+						canon.WriteString(fmt.Sprintf("lifecycle raft=%v %s;", raft, kind))
+						acc := 0
+						for i, now := range []int64{t1, t1 + gap} {
+							verifclock.Set(now)
+							e := ev{now, "reader-7", nonce, ts, true}
+							v := vh.Guard(func() string { return tg.deliver(e) })
+							op := fmt.Sprintf("lmsg %s %d %s %s %d 1", kind, now, e.sender, e.nonce, ts)
+							c.Op(op, v)
+							canon.WriteString(op + ";")
+							c.Tag("lc:" + kind + ":" + v)
+							if v == "accepted" {
+								acc++
+								if i == 1 && acc == 2 {
+									c.Fail(fmt.Sprintf("lifecycle-replay-accepted:%s:raft=%v", kind, raft),
+										fmt.Sprintf("real coordinator lifecycle (raft=%v): %s handshake (sender=%s nonce=%s ts=%d) accepted at %d and again at %d; nonce cache nil=%v", raft, kind, e.sender, nonce, ts, t1, now, tg.len() < 0),
+										canon.String())
+								}
+							}
+						}
+						c.Case(canon.String(), acc < 2)
+					}
+				}
+			}
+		}
+		lcNow += 0
 	}
 	n := 120
 	if c.Thorough() {
